@@ -113,6 +113,7 @@ def predicates(ns):
             for node in tree.body:
                 if isinstance(node, ast.FunctionDef) and any(isinstance(x, ast.Name) and x.id == "predicate" for x in node.decorator_list):
                     node.decorator_list = []
+                    node = _LazyImplies().visit(node)
                     _PRED_SRC.append(ast.Module(body=[node], type_ignores=[]))
     out = {}
     for mod in _PRED_SRC:
@@ -123,8 +124,20 @@ def predicates(ns):
     return out
 
 
+class _LazyImplies(ast.NodeTransformer):
+    """implies(a, b) -> ((not a) or b): Python evaluates call arguments eagerly, the logical reading does not"""
+
+    def visit_Call(self, node):
+        self.generic_visit(node)
+        if isinstance(node.func, ast.Name) and node.func.id == "implies" and len(node.args) == 2:
+            return ast.BoolOp(op=ast.Or(), values=[ast.UnaryOp(op=ast.Not(), operand=node.args[0]), node.args[1]])
+        return node
+
+
 def ev(expr, ns):
-    return eval(compile(ast.Expression(expr), "<contract>", "eval"), ns)
+    import copy
+    e = ast.fix_missing_locations(_LazyImplies().visit(copy.deepcopy(expr)))
+    return eval(compile(ast.Expression(e), "<contract>", "eval"), ns)
 
 
 # ----------------------------------------------------------------------------- values from recipes
